@@ -540,7 +540,24 @@ class Parser:
         if v in ("break", "continue"):
             raise Untranslatable(f"`{v}` is not in the fragment")
         if v in ("|", "||", "move"):
-            raise Untranslatable("closures are not in the fragment")
+            # a closure `|p, q| body` (no type annotations, no captures by move semantics that matter here)
+            if v == "move":
+                self.eat()
+            params = []
+            if self.at("||"):
+                self.eat()
+            else:
+                self.eat("|")
+                while not self.at("|"):
+                    params.append(self.pattern())
+                    if self.at(":"):
+                        self.eat()
+                        self.type_text()
+                    if self.at(","):
+                        self.eat()
+                self.eat("|")
+            body = self.expr()
+            return ("closure", params, body)
         if k == "id":
             path = [self.eat()[1]]
             while True:
@@ -711,6 +728,14 @@ class Emitter:
                 return self.tmpl(cfg["methods"][name], self.ex(recv), [self.ex(a) for a in args])
             if name in ERASED_METHODS_DEFAULT and len(args) <= (1 if name == "expect" else 0):
                 return self.ex(recv)
+            if name in ("iter", "into_iter") and not args:
+                return self.ex(recv)
+            if name == "find" and len(args) == 1 and args[0][0] == "closure":
+                return f"(List.find? {self.ex(args[0])} {self.atom(recv)})"
+            if name == "is_some" and not args:
+                return f"({self.atom(recv)}).isSome"
+            if name == "is_none" and not args:
+                return f"({self.atom(recv)}).isNone"
             if name == "is_eq" and not args:
                 return f"decide ({self.ex(recv)} = Ordering.eq)"
             if name in ("max", "min") and len(args) == 1:
@@ -787,6 +812,9 @@ class Emitter:
                 raise Untranslatable("struct literal not mapped: " + sname)
             d = dict(e[2])
             return "(" + ", ".join(self.ex(d[f]) for f in order) + ")"
+        if k == "closure":
+            ps = " ".join(self.pat(p) for p in e[1]) or "_"
+            return f"(fun {ps} => {self.ex(e[2])})"
         if k == "macro":
             raise Untranslatable("macro in value position: " + e[1])
         raise Untranslatable("expression kind " + k)
@@ -1024,6 +1052,17 @@ class Emitter:
             _, pat, it, body = s
             key = self.rust_text(it)
             fc = self.cfg.get("for_counts", {})
+            fl = self.cfg.get("for_lists", {})
+            if key in fl and pat[0] == "pvar":
+                # iterate a list by index: `for x in &list` = idx from 0 while idx < list.length, x := list[idx]
+                lst, dflt = fl[key]
+                var = self.v(pat[1])
+                idxv = var + "_idx"
+                cond = ("rawcond", f"{idxv} < ({lst}).length")
+                bind = ("rawlet", var, f"({lst}).getD {idxv} {dflt}")
+                inc = ("rawlet", idxv, f"{idxv} + 1")
+                pre = f"let {idxv} := 0\n"
+                return pre + self.loop(cond, [bind] + body[1] + [inc], rest, k, scope + [idxv])
             if key not in fc:
                 raise Untranslatable("for-iterator not mapped: " + key)
             if pat[0] != "pvar":
@@ -1102,7 +1141,7 @@ class Emitter:
         locals_ = [self.v(n) for n in dict.fromkeys(scope) if self.v(n) not in pnames]
         ltypes = self.cfg.get("local_types", {})
         default_ty = "Int" if self.cfg.get("int") else "Nat"
-        sig = " ".join(f"({p} : {t})" for p, t in params) + "".join(f" ({n} : {ltypes.get(n, default_ty)})" for n in locals_)
+        sig = (self.cfg.get("implicit", "") + " " if self.cfg.get("implicit") else "") + " ".join(f"({p} : {t})" for p, t in params) + "".join(f" ({n} : {ltypes.get(n, default_ty)})" for n in locals_)
         callargs = " ".join(pnames + locals_)
         # the loop function: fuel is its last argument; the recursive call passes the variables in
         # scope under their current (shadowed) names
@@ -1255,7 +1294,7 @@ def translate(name, body_text, cfg):
     em = Emitter(name, cfg)
     em.has_loop = contains_loop(ast) and not cfg.get("no_loops")
     params = cfg["params"]
-    sig = " ".join(f"({p} : {t})" for p, t in params)
+    sig = (cfg.get("implicit", "") + " " if cfg.get("implicit") else "") + " ".join(f"({p} : {t})" for p, t in params)
     body = em.stmts(ast[1], None, list(cfg.get("prelude_scope", [])))
     if cfg.get("prelude"):
         body = cfg["prelude"] + "\n" + body
